@@ -186,7 +186,7 @@ def logical_case(draw):
         rel = draw(st.sampled_from(["equal", "equal_conv", "close", "apart", "apart"]))
         op = draw(st.sampled_from(["==", "!=", "<", ">", "<=", ">="]))
         if rel == "close":
-            op = draw(st.sampled_from(["==", "<=", ">="]))     # 1e-8 relative apart: equal for the tolerant operators
+            op = draw(st.sampled_from(["==", "<=", ">=", "!="]))     # 1e-8 relative apart: equal for the tolerant operators (!= is the negation of ==)
         factor = draw(st.sampled_from([0.5, 2.0, 1.0001, 0.9999]))       # the tolerance is relative at every magnitude
         return ["cmp", left, op, rel, dim, draw(st.sampled_from(UNITS[dim])), factor]
 
@@ -198,7 +198,7 @@ def logical_case(draw):
         if k == "cmpn":
             a, b, rel = draw(st.sampled_from(INT_PAIRS))
             # 1 us vs 1000 ns is an equality reached through a conversion: tolerant operators only
-            op = draw(st.sampled_from(["==", "<=", ">="] if rel == "eq" else ["==", "!=", "<", ">", "<=", ">="]))
+            op = draw(st.sampled_from(["==", "<=", ">=", "!="] if rel == "eq" else ["==", "!=", "<", ">", "<=", ">="]))
             return ["cmpn", a, op, b, rel]
         if k == "bool":
             return draw(st.sampled_from([["lit", True], ["lit", False], ["bref", "flag"], ["bref", "off"]]))
@@ -586,14 +586,14 @@ def eval_logic(t, custom):
 
 
 def fragile(t):
-    """strict operators / != at an equality reached through a conversion are decided by float rounding"""
+    """strict operators at an equality reached through a conversion are decided by float rounding"""
     k = t[0]
     if k == "or":
         return any(fragile(x) for ands in t[1] for x in ands)
     if k in ("par", "not"):
         return fragile(t[1])
     if k == "cmp":
-        return t[3] == "equal_conv" and t[2] in ("<", ">", "!=")
+        return t[3] == "equal_conv" and t[2] in ("<", ">")
     return False
 
 
